@@ -184,12 +184,20 @@ def run_ah_on_file(pid, name, cases_path, ah_exe, seed=1, timeout=3600, extra_pl
             "tmp": vf.fresh_dir(os.path.join(d, "tmp"))}
     if extra_plan:
         plan.update(extra_plan)
+    stack_kb = plan.pop("_stack_kb", None)
     planf = os.path.join(d, "plan.json")
     with open(planf, "w") as f:
         json.dump(plan, f)
     t0 = time.time()
+
+    def small_stack():
+        # the harness process gets a small stack: work whose stack depth grows with the input
+        # (recursion per hop, per skipped entry, ...) fails at moderate sizes
+        import resource
+        resource.setrlimit(resource.RLIMIT_STACK, (stack_kb * 1024, stack_kb * 1024))
     with open(cases_path, "rb") as inp:
-        r = subprocess.run([ah_exe, planf], stdin=inp, stdout=subprocess.PIPE, stderr=subprocess.PIPE, timeout=timeout)
+        r = subprocess.run([ah_exe, planf], stdin=inp, stdout=subprocess.PIPE, stderr=subprocess.PIPE, timeout=timeout,
+                           preexec_fn=small_stack if stack_kb else None)
     res = {"cases": name, "ah_rc": r.returncode, "ah": None}
     for ln in r.stdout.decode(errors="replace").splitlines():
         if ln.startswith("SUMMARY "):
